@@ -31,6 +31,7 @@ PROP = Property(
                    "aggregator AggregatorRunner::open_signer_registration_round"]),
     ],
     replays=[dict(crate="mithril-aggregator", file="mithril-aggregator/src/services/signer_registration/leader.rs", module="replays/c07_leader.rs"),
+             dict(crate="mithril-aggregator", file="mithril-aggregator/src/runtime/runner.rs", module="replays/c07_runner.rs"),
              dict(crate="mithril-common", file=KC, module="replays/c07_registration.rs"),
              dict(crate="mithril-stm", file="mithril-stm/src/protocol/key_registration/register.rs", module="replays/c07_stm_registration.rs")],
     assumptions=[
